@@ -46,6 +46,11 @@ chk('C11', 'TLA+ sequential lifecycle machine with device scripts (PortLife, Por
     'Device ports are doubles; blocking calls are only issued when the script lets them return; wrapper members do not close themselves; receive() on a closed drained port may raise ValueError or OSError.',
     'DESIGN.md 5/C11')
 
+chk('C18', 'TLA+ model of peer writes / cut / receiver rounds over the Tokenizer (SocketLink) enumerated by TLC; every behaviour replayed on a real socketpair with the peer driven from the sleep hook; SocketAddr for the address codec',
+    'TLC enumerates message sequences of <= 2 (thorough 3) messages (channel 3- and 2-byte, sysex, real-time) x every cut offset 0..total x every segmentation of the bytes before the cut, with the peer close falling in the same or a later receiver gap, x two consumption patterns (iteration; poll after each group then until closed), checking PrefixComplete, NeverMore, AllValid, ClosedAfterEof. Each behaviour is executed on socket.socketpair() wrapped in the real SocketPort; peer writes and close happen before the receiver starts or from the mido.ports.sleep hook. SocketAddr enumerates hosts x ports and malformed address strings for format/parse. Driver-level: peer sees EOF after port.close(); PortServer on loopback with two clients (receive and poll return, per-client order).',
+    'AF_UNIX stream socketpair stands for the TCP connection; EOF wait bounded (1 s); server sub-check skipped (reported) if loopback bind fails.',
+    'DESIGN.md 5/C18')
+
 
 def build(not_applicable):
     checks = []
